@@ -33,6 +33,7 @@ fn lib_models(tier: Tier) -> Vec<Model> {
     // clauses with several (dis)equalities on one variable, literals defined by predicates
     v.extend(gen::m5(1).into_iter().step_by(if tier.quick() { 41 } else { 7 }));
     v.extend(gen::m6(0).into_iter().step_by(if tier.quick() { 29 } else { 5 }));
+    v.extend(gen::m8(0).into_iter().step_by(if tier.quick() { 7 } else { 2 }));
     v
 }
 
